@@ -11,6 +11,7 @@ package main
 
 import (
 	"fmt"
+	"os"
 	"sort"
 	"strings"
 
@@ -478,6 +479,29 @@ func mkCase(rp Replay, choose func(n int) int, maxSteps int, stream string) (*Ca
 	if res.recreate > 0 {
 		tags = append(tags, "recreated-under-waiting-visit")
 	}
+	seen := map[string]bool{}
+	for _, pr := range rp.Progs {
+		for _, q := range pr {
+			switch {
+			case q.K == "write" && q.Real && q.Abort < 0:
+				seen["real-write"] = true
+			case q.K == "write" && q.Real:
+				seen[fmt.Sprintf("real-write-outcome-%d", q.Abort)] = true
+			case q.K == "byid" && q.Real:
+				seen["real-getjournal-by-id"] = true
+			case q.K == "visit" && q.Real:
+				seen["real-partitions-listing"] = true
+			case q.K == "trunc" && (len(q.Ofail) > 0 || len(q.Gfail) > 0):
+				seen["truncate-open-failure"] = true
+			case q.K == "query" && q.Limit < 50:
+				seen["query-small-limit"] = true
+			}
+		}
+	}
+	for k := range seen {
+		tags = append(tags, k)
+	}
+	sort.Strings(tags[1:])
 	if res.fused > 0 {
 		tags = append(tags, "fused-steps")
 	}
@@ -540,6 +564,18 @@ func main() {
 		for _, rp := range limitCorpus() {
 			jobs = append(jobs, job{rp: rp, stream: "corpus"})
 		}
+		for _, rp := range writeCorpus() {
+			jobs = append(jobs, job{rp: rp, stream: "corpus"})
+		}
+		for _, rp := range openFailCorpus() {
+			jobs = append(jobs, job{rp: rp, stream: "corpus"})
+		}
+		// raw: the boundaries of the three count tests (LockExclusively readers == 1, Release readers <= 0,
+		// UnlockExclusively readers != 1) from both sides, and operations on a removed source (all no-ops / NotFound)
+		jobs = append(jobs,
+			job{rp: Replay{Kind: "raw", Pre: 1, Ops: []ROp{{K: "lock", P: 0}, {K: "acqi", P: 0, Lock: true}, {K: "lock", P: 0}, {K: "unlock", P: 0}, {K: "acqi", P: 0, Lock: true}, {K: "lock", P: 0}, {K: "rel", P: 0}, {K: "lock", P: 0}, {K: "unlock", P: 0}, {K: "rel", P: 0}, {K: "rel", P: 0}}}, stream: "raw"},
+			job{rp: Replay{Kind: "raw", Pre: 1, Ops: []ROp{{K: "acqi", P: 0, Lock: true}, {K: "lock", P: 0}, {K: "del", P: 0}, {K: "del", P: 0}, {K: "unlock", P: 0}, {K: "rel", P: 0}, {K: "lock", P: 0}, {K: "acqi", P: 0, Lock: true}, {K: "acqt", Tag: 0, Create: false}, {K: "acqt", Tag: 0, Create: true}, {K: "rel", P: 1}, {K: "rel", P: 1}}}, stream: "raw"},
+			job{rp: Replay{Kind: "raw", Pre: 2, Ops: []ROp{{K: "acqi", P: 1, Lock: false}, {K: "lock", P: 1}, {K: "del", P: 1}, {K: "acqi", P: 1, Lock: true}, {K: "rel", P: 1}, {K: "acqi", P: 7, Lock: true}, {K: "del", P: 7}, {K: "unlock", P: 7}}}, stream: "raw"})
 		// fixed raw histories for branches the random ones never take: Release of a partition its
 		// holder has locked exclusively (panic), UnlockExclusively of a partition that is merely held
 		jobs = append(jobs,
@@ -581,6 +617,12 @@ func main() {
 		var asess [][]EOp
 		for i := 0; i < c.N(6); i++ {
 			asess = append(asess, genE2EOps(c.Rng.Fork(), true))
+		}
+		if c.Tier == "thorough" || os.Getenv("VERIF_C14_IDLE") != "" {
+			// (10-12 s each: thorough tier only) sessions whose pipe workers end on their own before the pipes are deleted
+			for i := 0; i < 3; i++ {
+				asess = append(asess, append(genE2EOps(c.Rng.Fork(), true), EOp{K: "idle"}))
+			}
 		}
 		eres := make([]*Case, len(sess))
 		eerr := make([]error, len(sess))
